@@ -262,6 +262,29 @@ func init() {
 				}
 			}
 		}
+		// an exception, its $badfilter twin in front of it and an unrelated exception behind: the same list of rule
+		// objects evaluated twice (the list is the caller's, e.g. what MatchAll returned)
+		for mask := 1; mask < 1<<n; mask++ {
+			var full []string
+			for i := 0; i < n; i++ {
+				if mask&(1<<i) != 0 {
+					full = append(full, c16Mods[i])
+				}
+			}
+			texts := []string{c16RuleText(append(append([]string{}, full...), "badfilter")), c16RuleText(full), "@@||example.org^$jsinject"}
+			if len(full) == 1 && full[0] == "jsinject" {
+				continue
+			}
+			list := []*rules.NetworkRule{mustNetRule(texts[0], 1), mustNetRule(texts[1], 1), mustNetRule(texts[2], 1)}
+			o1 := rules.NewMatchingResult(list, nil).GetCosmeticOption()
+			o2 := rules.NewMatchingResult(list, nil).GetCosmeticOption()
+			c.Run.Add("evaluations", 2)
+			if exp := c16Expected([]string{"jsinject"}); o1 != exp || o2 != exp {
+				c.Run.Violate(ev.Violation{Pred: "option-equals-all-minus-union", Sig: map[string]any{"mods": full, "badfilter_twin": true, "route": "same list twice"},
+					What:   fmt.Sprintf("NewMatchingResult over %v evaluated twice on the same list gives cosmetic options %03b then %03b, expected %03b both times (the first exception is disabled by its twin)", texts, o1, o2, exp),
+					Replay: map[string]any{"mods": full}})
+			}
+		}
 		// a $badfilter exception with a strict subset of another exception's
 		// modifiers is not its twin: the option is the one of the full exception
 		cos := []string{"elemhide", "generichide", "jsinject", "urlblock", "important"}
